@@ -332,3 +332,51 @@ def emit_btp(ctx):
         for L in ((0, 5) if ctx.tier == "quick" else (0, 1, 5, 64, 1400)):
             c01._btp_request(ctx, t, L)
     ctx.bound("BTP-A/BTP-B, payload lengths {0,5} (quick) / {0,1,5,64,1400} (thorough), every 16-bit port / port info")
+
+
+@vc("C02", "emit-ls-reply")
+def emit_lsrep(ctx):
+    """the LS reply a station emits when it is the sought station of a received LS request: every octet from its own MIB / position and the
+    requester's stored position vector - nothing echoed from the request's headers"""
+    from ..gnharness import Harness
+    from ..interp import TRUE
+    for mobile in GnIsMobile:
+        h = Harness(8 * 24 + 128 + 64, itsGnIsMobile=mobile)
+        I = h.I
+        dflt = E.sym_hop_default(I)
+        mo = I.lift_value(h.R.mib)
+        mo.fields["itsGnDefaultHopLimit"] = dflt
+        h.Ro.fields["mib"] = mo
+        h.mib = mo
+        sn0 = I.int_var("sn0", 0, 65534)
+        h.set_sn(sn0)
+        requester = G.sym_gn_addr(I, "requester")
+        ent = h.add_entry("rq", addr=requester, present=z3.BoolVal(True))
+        # the received LS request: arbitrary source position vector of the requester, sought address = this station, arbitrary common-header octets
+        so_pv = G.sym_lpv(I, "rq_so")
+        so_pv.fields["gn_addr"] = requester
+        hdr = Obj(LSRequestExtendedHeader, dict(sn=I.int_var("rq_sn", 0, 65535), reserved=0, so_pv=so_pv, request_gn_addr=h.R.mib.itsGnLocalGnAddr))
+        I.stubs[LSRequestExtendedHeader.decode] = lambda it, a, k, pc, hdr=hdr: hdr
+        rx_flags = I.int_var("received_flags", 0, 255)
+        rx_common = Obj(CommonHeader, dict(nh=CommonNH.ANY, reserved=0, ht=HeaderType.LS, hst=LocationServiceHST.LS_REQUEST, tc=TrafficClass(), flags=rx_flags, pl=0,
+                                           mhl=I.int_var("received_mhl", 1, 255), reserved2=0))
+        rx_basic = I.lift_value(BasicHeader())
+        h.call(Router.gn_data_indicate_ls_request, SBytes([z3.BitVecVal(0, 8)] * 36), rx_common, rx_basic)
+        sn = z3.If(sn0 + 1 == I.const(65535), I.const(0), sn0 + 1)
+        I.mag[sn.get_id()] = 16
+        ex = E.Expect(I)
+        ex.add_layout("basic", E.basic_vals(dflt), W.BASIC)
+        ex.add_layout("common", E.common_vals(0, 6, 1, None, mobile.value, 0, dflt), W.COMMON)
+        ev = {"sn": sn, "reserved": 0}
+        ev.update({"so_pv." + k: v for k, v in E.vals_from_obj(h.ego, W.LPV).items()})
+        ev.update({"de_pv." + k: v for k, v in E.vals_from_obj(ent.fields["position_vector"], W.SPV).items()})
+        ex.add_layout("lsrep", ev, W.LSREP)
+
+        def real_call(R, vals, hdr=hdr, rx_common=rx_common):
+            from unittest import mock
+            import flexstack.geonet.router as RM
+            ch = G.concretize(rx_common, vals)
+            with mock.patch.object(RM.LSRequestExtendedHeader, "decode", classmethod(lambda cls, b: G.concretize(hdr, vals))):
+                return R.gn_data_indicate_ls_request(bytes(36), ch, BasicHeader())
+        emit_queries(ctx, f"LSREP[{mobile.name}]", h, ex, E.lifetime_ms(h, None), real_call, extra_objs=(hdr, rx_common, ent))
+    ctx.bound("LS request addressed to this station from an arbitrary known requester; the request's common-header flags and hop limit arbitrary")
